@@ -6,6 +6,11 @@ ALL = [f"C{i:02d}" for i in range(1, 21)]
 
 # id -> (category, technique, text, note, design_ref)
 CHECKS = {
+    "C15": ("model_checking",
+            "exhaustive enumeration of split plans (compositions x order-preserving reduction trees x identity injections) of the parallel fold/reduce, executed through hook H1; plan model bound to real rayon by a conformance pass",
+            "For every evaluation context (root constructions of a slice of the families with 1-3 jobs taken out again; 2-6 (route, job) items) EVERY split plan is executed on the real PositionInsertionEvaluator::evaluate_all and the chosen cost vector is compared with the library's own sequential scan and, for single-task jobs, with an independent minimum over all pairs. Real pools of 1-16 threads are sampled (labelled). Full solves under 11 pool layouts / plan policies are judged by the oracle. Conformance: the segment/tree structure of real rayon fold+reduce runs must be a member of the plan model (traces_validated_against_impl).",
+            "Real thread schedules are sampled, the exhaustive statement is about split plans; contexts <= 6 items; multi-task jobs sample permutations from per-thread random sources and are compared under plans only.",
+            "DESIGN.md section 5 C15"),
     "C12": ("fault_enumeration",
             "fault enumeration: every single-breach mutation at every applicable site of every solution of a corpus, each mutant confirmed invalid by an independent oracle",
             "Corpus: solver solutions (2 configurations) of a slice of the families the checker documents, kept only if the independent oracle finds them valid. Acceptance: the repository checker must accept every original. Rejection: 14 mutation classes (misreported load, load above capacity, unknown/duplicated/dropped job, job split over tours, assigned and unassigned, arrival +2 s, stop distance +2, tour/overall statistic +2, limit below actual, broken relation, misplaced break) are applied at EVERY applicable site; a mutant is judged only if the oracle confirms it invalid for the intended rule class; the checker must answer Err.",
